@@ -26,7 +26,7 @@ from mc.checks import rules_common as R
 PROPERTY = "C15"
 LEVEL = "fault_enumeration"
 DETERMINISM_CASES = 1
-RULE = ("cases = 3 histories x budget variants (up --migrate: 2x2 backup/target-file variants; init: 3 settings variants x 2 x 2; layout migration: "
+RULE = ("cases = 3 histories x budget variants (up --migrate: 2x2 backup/target-file variants, an earlier backup of the live CSV's size and time stamp; init: 3 settings variants x 2 x 2; layout migration: "
         "data/output present or not x ./tally absent/empty/non-empty, a budget that went through the CSV migration first, two half-migrated budgets whose ./tally already holds same-named files); per case every prefix of the recorded effect log is a crash point (x torn "
         "variants half/nothing for effects that land data) and every effect is an OSError injection point; evaluations = fault runs executed on the "
         "real code; non-trivial = fault runs whose resulting tree differs from both the initial and the completed tree, counted as distinct trees")
@@ -54,6 +54,11 @@ def budgets():
             if tgt:
                 f["config/merchants.rules"] = OTHER_RULES
             out.append({"history": "up-migrate", "name": f"csv bak={bak} rulesfile={tgt}", "files": f})
+    # an earlier backup of exactly the size (and, like every file here, the time stamp) of the live CSV, with other rules in it
+    f = {"config/settings.yaml": SETTINGS_CSV, "config/merchant_categories.csv": CSV_RULES,
+         "config/merchant_categories.csv.bak": CSV_RULES.replace("NETFLIX,Netflix,Subs,Streaming,video", "PRECIOU,Oldbakk,Keep,Meplease_,video"), "data/s.csv": STMT}
+    assert len(f["config/merchant_categories.csv.bak"]) == len(CSV_RULES) and f["config/merchant_categories.csv.bak"] != CSV_RULES
+    out.append({"history": "up-migrate", "name": "csv, earlier backup of the same size and time stamp", "files": f})
     # settings.yaml that only MENTIONS the key in a comment; a budget whose config directory is not called "config"
     f = {"config/settings.yaml": SETTINGS_CSV + "# merchants_file: config/merchants.rules   (uncomment after migrating)\n",
          "config/merchant_categories.csv": CSV_RULES, "data/s.csv": STMT}
@@ -131,6 +136,9 @@ def materialise(files):
             continue
         with open(full, "w", encoding="utf-8", newline="") as f:
             f.write(b)
+        # every file of a starting tree carries one and the same modification time (a budget unpacked from an archive or copied with
+        # its time stamps): the trees do not depend on how fast they were written
+        os.utime(full, (1700000000, 1700000000))
     return root
 
 
